@@ -456,23 +456,37 @@ func parseAnswer(body []byte, ids map[string]string, srv string) (resps []RespOb
 				}
 			}
 		}
+		// the order of properties inside an answer is not significant (and not stable: the servers iterate over maps)
+		sort.SliceStable(ro.Props, func(i, j int) bool { return ro.Props[i].N < ro.Props[j].N })
 		resps = append(resps, ro)
 	}
 	return resps, true, nsok
 }
 
+// absName / concName: "SRV: data" and "SRV: home-set" stand for the service's own data and home-set properties,
+// "CARD: home-set" for the CardDAV home set where that is a different property (principal helper, CalDAV, file server).
 func absName(ns, local, srv string) string {
-	if (ns == xmlt.CAL && local == "calendar-data") || (ns == xmlt.CARD && local == "address-data") {
+	own := map[string]string{"cal": xmlt.CAL, "card": xmlt.CARD, "dav": xmlt.CAL, "principal": xmlt.CAL}[srv]
+	if ns == own && (local == "calendar-data" || local == "address-data") {
 		return "SRV: data"
 	}
-	if (ns == xmlt.CAL && local == "calendar-home-set") || (ns == xmlt.CARD && local == "addressbook-home-set") {
+	if ns == own && (local == "calendar-home-set" || local == "addressbook-home-set") {
 		return "SRV: home-set"
+	}
+	if ns == xmlt.CARD && ((srv != "card" && local == "addressbook-home-set") || (srv == "card" && local == "other-home-set")) {
+		return "CARD: home-set"
 	}
 	return ns + " " + local
 }
 func concName(n, srv string) (string, string) {
 	parts := strings.SplitN(n, " ", 2)
 	ns, local := parts[0], parts[1]
+	if ns == "CARD:" {
+		if srv == "card" {
+			return xmlt.CARD, "other-home-set"
+		}
+		return xmlt.CARD, "addressbook-home-set"
+	}
 	if ns == "SRV:" {
 		ns = map[string]string{"cal": xmlt.CAL, "card": xmlt.CARD, "dav": xmlt.CAL, "principal": xmlt.CAL}[srv]
 		if local == "data" {
@@ -538,7 +552,7 @@ func doPf(r PfReq, segName string, scratch string, emit func(interface{})) {
 			ids["/d/f1"] = "file"
 		}
 	case "principal":
-		opts := &webdav.ServePrincipalOptions{CurrentUserPrincipalPath: "/p/u/", HomeSets: []webdav.BackendSuppliedHomeSet{caldav.NewCalendarHomeSet("/p/u/cal/")}}
+		opts := &webdav.ServePrincipalOptions{CurrentUserPrincipalPath: "/p/u/", HomeSets: []webdav.BackendSuppliedHomeSet{caldav.NewCalendarHomeSet("/p/u/cal/"), carddav.NewAddressBookHomeSet("/p/u/card/")}}
 		h = http.HandlerFunc(func(w http.ResponseWriter, rq *http.Request) { webdav.ServePrincipal(w, rq, opts) })
 		ids = map[string]string{"/p/u/": "P"}
 		target = "/p/u/"
